@@ -3,14 +3,14 @@ package props
 // C04 — every signed endpoint acts only on requests signed by the identity they name.
 
 import (
-	"sort"
-	"reflect"
 	"context"
 	"encoding/base64"
 	"encoding/hex"
 	"encoding/json"
 	"fmt"
 	"math/big"
+	"reflect"
+	"sort"
 	"strings"
 	"sync"
 	"testing"
